@@ -66,7 +66,8 @@ def subset_case(draw, n_inputs=4):
             return M.Bin(op, l, rr, ty=ty)
 
         ret = comp
-        body_e = expr(comp, draw(st.integers(1, 3)))
+        # mostly small bodies, sometimes ones whose encoding crosses the one-byte size prefix (>= 128 bytes)
+        body_e = expr(comp, draw(st.sampled_from([1, 2, 2, 3, 3, 5, 6])))
         if draw(st.integers(0, 9)) < 4:
             cty = draw(st.sampled_from(sorted(names)))
             body_e = M.Bin(draw(st.sampled_from(["==", "<", ">"])), expr(cty, 2), expr(cty, 1), ty=INT)
